@@ -10,6 +10,7 @@ import (
 	"sort"
 	"strconv"
 	"strings"
+	"sync"
 	"time"
 	"unicode/utf8"
 
@@ -27,6 +28,44 @@ func mustSX(src string) *SX {
 // ---------------------------------------------------------------- C02: every failure signal fails the test
 
 var c02Kinds = []string{"(fatal 1)", "(failnow 1)", "(error 1)", "(fail)", "(panic 1)", "(rtpanic 1)", "(goerror 1)"}
+
+// a non-fatal failure on the T of a Custom generator function (nested `depth` deep) from a goroutine after the function
+// has returned: was a failure signalled, did Check fail the test
+func c02Late(seed uint64, depth int) (signalled bool, failed bool) {
+	fl := baseFlags()
+	fl.Checks = 20
+	fl.Seed = seed
+	fl.ShrinkTime = 0
+	tb := newRecTB("c02late")
+	var mu sync.Mutex
+	prop := func(t *rapid.T) {
+		release := make(chan struct{})
+		done := make(chan struct{})
+		inner := rapid.Custom(func(ct *rapid.T) int {
+			v := rapid.IntRange(0, 9).Draw(ct, "c")
+			go func() {
+				defer close(done)
+				<-release
+				if v >= 5 {
+					mu.Lock()
+					signalled = true
+					mu.Unlock()
+					ct.Errorf("late failure for %d", v)
+				}
+			}()
+			return v
+		})
+		g := inner
+		if depth == 2 {
+			g = rapid.Custom(func(ct *rapid.T) int { return inner.Draw(ct, "inner") })
+		}
+		_ = g.Draw(t, "v")
+		close(release)
+		<-done
+	}
+	withFlags(fl, func() { runTB(func() { rapid.VerifCheckTB(tb, farDeadline(), prop) }) })
+	return signalled, tb.failed
+}
 
 // the failure statement F placed in a callback context
 func c02Context(ctx string, f string) string {
@@ -62,6 +101,14 @@ func c02Context(ctx string, f string) string {
 		return "(cleanup (skip)) " + f
 	case "action-skipping-cleanup":
 		return "(repeat (act (emit 100) (draw q (i 0 3)) (cleanup (skip)) " + f + " (emit 200)))"
+	// a deferred function of the user's own code skips while the failure unwinds: a failure that was *recorded* on T
+	// (Fatal*, FailNow, Error*, Fail) still falsifies; a plain panic replaced by the user's own defer is beyond rapid's reach
+	case "body-deferred-skip":
+		return "(defer (skip)) " + f
+	case "custom-deferred-skip":
+		return "(draw cv (custom (draw c (i 0 9)) (defer (skip)) " + f + " (ret c)))"
+	case "action-deferred-skip":
+		return "(repeat (act (emit 100) (draw q (i 0 3)) (defer (skip)) " + f + " (emit 200)))"
 	case "nested-custom-skipping-cleanup":
 		return "(draw cv (custom (cleanup (skip)) (draw c (custom (draw c (i 0 9)) " + f + " (ret c))) (ret c)))"
 	case "action-cleanup":
@@ -72,7 +119,8 @@ func c02Context(ctx string, f string) string {
 
 var c02Contexts = []string{"body", "action", "invariant", "custom", "cleanup", "custom-cleanup", "nested-cleanup", "action-cleanup",
 	"nested-custom", "nested-custom-cleanup", "custom-element", "custom-in-action",
-	"custom-skipping-cleanup", "custom-under-skipping-cleanup", "body-skipping-cleanup", "action-skipping-cleanup", "nested-custom-skipping-cleanup"}
+	"custom-skipping-cleanup", "custom-under-skipping-cleanup", "body-skipping-cleanup", "action-skipping-cleanup", "nested-custom-skipping-cleanup",
+	"body-deferred-skip", "custom-deferred-skip", "action-deferred-skip"}
 
 // where in the run the falsifying case occurs
 func c02Position(pos string, stmt string) string {
@@ -96,8 +144,8 @@ func init() {
 		for _, k := range c02Kinds {
 			for _, cx := range c02Contexts {
 				for _, pos := range c02Positions {
-					if pos == "rare" && (cx == "cleanup" || cx == "nested-cleanup") {
-						// (if c (cleanup …)) is fine too, keep
+					if strings.HasSuffix(cx, "-deferred-skip") && (strings.HasPrefix(k, "(panic") || strings.HasPrefix(k, "(rtpanic")) {
+						continue // the user's own deferred function replaces the user's own panic
 					}
 					src := c02Position(pos, c02Context(cx, k))
 					prog := mustSX(src)
@@ -125,6 +173,20 @@ func init() {
 				}
 			}
 		}
+		// a non-fatal failure signalled on the T of a Custom generator function from a goroutine, after the function
+		// has returned (the property waits for the goroutine): it falsifies the test case
+		for rep := 0; rep < 3*scale; rep++ {
+			for depth := 1; depth <= 2; depth++ {
+				seed := r.u64() | 1
+				signalled, failed := c02Late(seed, depth)
+				m.tag(fmt.Sprintf("late-error-custom-depth%d", depth))
+				m.eval(fmt.Sprint("late", depth, seed), true)
+				if signalled && !failed {
+					m.violate(violation{"C02", "late-signal", fmt.Sprintf("Errorf on the T of a Custom generator function (nesting %d) from a goroutine after the function returned was lost: the test passed", depth),
+						map[string]string{"seed": fmt.Sprint(seed), "depth": fmt.Sprint(depth)}})
+				}
+			}
+		}
 		// skipping alone never falsifies
 		for _, src := range []string{"((skip))", "((draw g (i 0 9)) (if (lt g 5) (skip)))", "((repeat (act (emit 100) (skip))) )", "((draw cv (custom (draw c (i 0 9)) (if (lt c 5) (skip)) (ret c))))"} {
 			fl := baseFlags()
@@ -138,6 +200,12 @@ func init() {
 				m.violate(violation{"C02", "skip-fails", "skipping alone was reported as a falsification: " + run.verdict, p})
 			}
 		}
+	}
+	replayers["late-signal"] = func(v violation, tmp string) (bool, string) {
+		seed, _ := strconv.ParseUint(v.Params["seed"], 10, 64)
+		depth, _ := strconv.Atoi(v.Params["depth"])
+		signalled, failed := c02Late(seed, depth)
+		return signalled && !failed, fmt.Sprintf("signalled=%v failed=%v", signalled, failed)
 	}
 	replayers["lost-signal"] = func(v violation, tmp string) (bool, string) {
 		run := runCheckTB(mustSX(v.Params["prog"]), parseFlags(v.Params), "replay", nil)
@@ -1184,6 +1252,10 @@ func init() {
 			n := int(r.pick(0, 1, 2, 5, 17, 100))
 			skipBelow := int(r.pick(0, 0, 3, 5, 9, 10)) // of 10: how often a case is skipped
 			src := fmt.Sprintf("((draw a (i 0 9)) (if (lt a %d) (skip)) (draw b (bool)))", skipBelow)
+			if i%3 == 2 {
+				// a skipped test case may also leave something behind at cleanup time: it must not leak into the next one
+				src = fmt.Sprintf("((draw a (i 0 9)) (if (lt a %d) (cleanup (skip)) (skip)) (draw b (bool)))", skipBelow)
+			}
 			fl := baseFlags()
 			fl.Checks = n
 			fl.Seed = r.u64() | 1
